@@ -330,12 +330,17 @@ func (e *c15Env) stakeFlow() {
 		}
 		// (b) the total is adjusted once, by the same value, in the same direction
 		tot, okTot := one(totalName)
-		okPair := okTot && len(callsOf(otherTotal)) == 0 && len(tot.Call.Args) == 2 && !g.InLoop(sendNode)
+		var totAmt ast.Expr
+		if okTot {
+			// the amount argument of addTotal / subTotal: its only *big.Int parameter, wherever it stands
+			totAmt = c15TypedArg(tot.Fn, tot.Call, c15IsPtrTo("math/big", "Int"))
+		}
+		okPair := okTot && len(callsOf(otherTotal)) == 0 && totAmt != nil && !g.InLoop(sendNode)
 		if okPair {
 			if dir == "deposit" {
-				okPair = e.isTxAmount(f, tot.Call.Args[1], 0)
+				okPair = e.isTxAmount(f, totAmt, 0)
 			} else {
-				okPair = r.SameValue(tot.Call.Args[1], amount)
+				okPair = r.SameValue(totAmt, amount)
 			}
 		}
 		c.Check("stake-flow", key+"|total-pair", cs.Call.Pos(), okPair,
